@@ -151,8 +151,10 @@ func (b *Builder) inst(blk *ir.Block, in *am.Inst) {
 		x.Align = ir.Align(in.Align)
 		if in.AddrSpace != 0 {
 			x.AddrSpace = types.AddrSpace(in.AddrSpace)
-			x.Typ = nil // the address space is part of the result type
-			x.Type()
+			if !b.stale {
+				x.Typ = nil // the address space is part of the result type
+				x.Type()
+			}
 		}
 		b.finish(in, x)
 	case "load":
